@@ -86,8 +86,14 @@ class _Profile(PartialProfile):
             e = m.exprs[0]
             if isinstance(e, ast.Call) and isinstance(e.func, ast.Attribute) and e.func.attr == "is_finite" and from_input_at(T, cfg, m, e.func.value, val):
                 guards += cfg.out_edges(m, ("T",))
-            if isinstance(e, ast.Call) and isinstance(e.func, ast.Attribute) and e.func.attr in ("is_nan", "is_infinite"):
-                pass  # a single is_nan / is_infinite test does not exclude the other
+            if isinstance(e, ast.Call) and isinstance(e.func, ast.Attribute) and e.func.attr in ("is_nan", "is_infinite") and from_input_at(T, cfg, m, e.func.value, val):
+                # a single is_nan / is_infinite test does not exclude the other; "neither" does: the false outcome of one of
+                # them, where that test is itself reached only through the false outcome of a test of the other kind
+                other = "is_infinite" if e.func.attr == "is_nan" else "is_nan"
+                first = [e2 for m2 in cfg.nodes if m2.kind == "test" and m2.id != m.id and isinstance(m2.exprs[0], ast.Call) and isinstance(m2.exprs[0].func, ast.Attribute)
+                         and m2.exprs[0].func.attr == other and from_input_at(T, cfg, m2, m2.exprs[0].func.value, val) for e2 in cfg.out_edges(m2, ("F",))]
+                if first and cfg.find_path(cfg.entry.id, m.id, avoid_edges=first) is None:
+                    guards += cfg.out_edges(m, ("F",))
         for cls in hazard[1]:
             yield cls, guards, hazard[0]
 
@@ -401,6 +407,12 @@ def _t1(ctx: Context) -> None:
                         gate_float += cfg.out_edges(n, ("F",) if m[2] else ("T",))
                     continue
                 tt = strip_sites(T.of(cfg, n, n.exprs[0]))  # the membership kept in a local
+                # inside the number branch the formats are the integer formats and float: `format == float` is `format not in INTEGER`
+                if tt[0] == "cmp" and tt[1] in (("Eq",), ("NotEq",)) and ("const", "float") in tt[2] and n.id in cfg.reachable_from(rn.id):
+                    isf = tt[1] == ("Eq",)
+                    gate_float += cfg.out_edges(n, ("T",) if isf else ("F",))
+                    gate_int += cfg.out_edges(n, ("F",) if isf else ("T",))
+                    continue
                 if tt[0] == "cmp" and tt[1] in (("In",), ("NotIn",)) and tt[2][1][0] == "const":
                     try:
                         coll = set(tt[2][1][1])
